@@ -6,6 +6,7 @@ import (
 	"flag"
 	"fmt"
 	"os"
+	"os/exec"
 	"sync"
 	"time"
 )
@@ -50,10 +51,43 @@ func cmdReplay(args []string) {
 	wdog := fs.Int("watchdog", 10000, "per-call watchdog in ms")
 	shard := fs.Int("shard", 0, "max events per output file (0 = single file); files are out.N")
 	mflag := fs.Bool("metrics", false, "snapshot the Prometheus registry after every call (use with -workers 1)")
+	isolate := fs.Bool("isolate", false, "run every script in a process of its own (a workload run alone: no other connection has ever existed in the process)")
 	fs.Parse(args)
 	metricsMode = *mflag
 	hdr, scripts := readNdjson(*in)
 	traces := make([][]M, len(scripts))
+	childRaced := false
+	var mu sync.Mutex
+	runIsolated := func(i int) []M {
+		src := fmt.Sprintf("%s.iso%d.in", *out, i)
+		dst := fmt.Sprintf("%s.iso%d.out", *out, i)
+		defer os.Remove(src)
+		defer os.Remove(dst)
+		f, err := os.Create(src)
+		if err != nil {
+			return []M{{"ev": "harnessError", "text": err.Error()}}
+		}
+		hb, _ := json.Marshal(hdr)
+		sb, _ := json.Marshal(scripts[i])
+		f.Write(hb)
+		f.Write([]byte("\n"))
+		f.Write(sb)
+		f.Write([]byte("\n"))
+		f.Close()
+		cmd := exec.Command(os.Args[0], "replay", "-in", src, "-out", dst, "-workers", "1", "-watchdog", fmt.Sprint(*wdog))
+		cmd.Stderr = os.Stderr
+		if err := cmd.Run(); err != nil {
+			if ee, ok := err.(*exec.ExitError); ok && ee.ExitCode() == 66 {
+				mu.Lock()
+				childRaced = true
+				mu.Unlock()
+			} else {
+				return []M{{"ev": "harnessError", "text": "isolated run: " + err.Error()}}
+			}
+		}
+		_, evs := readNdjson(dst)
+		return evs
+	}
 	var wg sync.WaitGroup
 	ch := make(chan int)
 	for w := 0; w < *workers; w++ {
@@ -61,6 +95,10 @@ func cmdReplay(args []string) {
 		go func() {
 			defer wg.Done()
 			for i := range ch {
+				if *isolate {
+					traces[i] = runIsolated(i)
+					continue
+				}
 				traces[i] = runScript(hdr, scripts[i], time.Duration(*wdog)*time.Millisecond)
 			}
 		}()
@@ -73,6 +111,9 @@ func cmdReplay(args []string) {
 	wg.Wait()
 	n, files := writeTraces(traces, *out, *shard)
 	fmt.Printf("{\"scripts\":%d,\"events\":%d,\"files\":%d,\"elapsed_ms\":%d}\n", len(scripts), n, files, time.Since(t0).Milliseconds())
+	if childRaced {
+		os.Exit(66)
+	}
 }
 
 func writeTraces(traces [][]M, out string, shard int) (events, files int) {
